@@ -32,6 +32,17 @@ namespace rkcommon {
           f(point, object);
       }
 
+      // a point placed AFTER a boolean expression has been evaluated: reports
+      // "<name>_true" or "<name>_false" and passes the value through
+      inline bool eval_point(const char *nameTrue,
+                             const char *nameFalse,
+                             const void *object,
+                             bool value)
+      {
+        sched_point(value ? nameTrue : nameFalse, object);
+        return value;
+      }
+
     }  // namespace verif
   }    // namespace tasking
 }  // namespace rkcommon
@@ -39,8 +50,13 @@ namespace rkcommon {
 #define RKCOMMON_VERIF_POINT(name, obj) \
   ::rkcommon::tasking::verif::sched_point(name, obj)
 
+#define RKCOMMON_VERIF_EVAL(name, obj, value) \
+  ::rkcommon::tasking::verif::eval_point(name "_true", name "_false", obj, value)
+
 #else
 
 #define RKCOMMON_VERIF_POINT(name, obj) ((void)0)
+
+#define RKCOMMON_VERIF_EVAL(name, obj, value) (value)
 
 #endif
